@@ -891,3 +891,170 @@ theorem errorf_rel_sprintf (env : Env) (f : List Byte) (args : List Val) (hf : N
   (espec_all env defaultFuel).doPrintf newPP { newPP with wrapErrs := true } f args ⟨rfl, rfl, rfl, rfl, rfl, rfl, rfl⟩ hf
 
 end Redact.EqW
+
+/-! ### The byte-level criterion: a decoded multi-byte verb is at least 0x80 -/
+
+namespace Redact.EqW
+
+/-- The `first` table, read back: what a lead byte announces. -/
+def leadFact (k : Nat) : Bool :=
+  match leadInfo (UInt8.ofNat k) with
+  | none => true
+  | some (sz, lo, hi) =>
+    (sz == 2 && decide (2 ≤ k &&& 0x1F)) ||
+    (sz == 3 && (decide (1 ≤ k &&& 0x0F) || (lo == 0xA0 && hi == 0xBF))) ||
+    (sz == 4 && (decide (1 ≤ k &&& 0x07) || (lo == 0x90 && hi == 0xBF)))
+
+theorem leadFact_all : ∀ k : Fin 256, leadFact k.val = true := by decide +kernel
+
+theorem lo_and (k : Nat) (h1 : 0xA0 ≤ k) (h2 : k ≤ 0xBF) : 0x20 ≤ k &&& 0x3F := by
+  have : ∀ j : Fin 256, 0xA0 ≤ j.val → j.val ≤ 0xBF → 0x20 ≤ j.val &&& 0x3F := by decide +kernel
+  exact this ⟨k, by omega⟩ h1 h2
+
+theorem lo_and4 (k : Nat) (h1 : 0x90 ≤ k) (h2 : k ≤ 0xBF) : 0x10 ≤ k &&& 0x3F := by
+  have : ∀ j : Fin 256, 0x90 ≤ j.val → j.val ≤ 0xBF → 0x10 ≤ j.val &&& 0x3F := by decide +kernel
+  exact this ⟨k, by omega⟩ h1 h2
+
+/-- What `decodeRune` accepted, read back. -/
+theorem decodeRune_ok {c : Byte} {rest : List Byte} {n : Nat} (hc : ¬ c < 0x80) (h : decodeRune (c :: rest) = (false, n)) :
+    ∃ sz lo hi b1 r', leadInfo c = some (sz, lo, hi) ∧ rest = b1 :: r' ∧ lo ≤ b1 ∧ b1 ≤ hi ∧
+      (n = 2 → sz ≤ 2) ∧ (n = 3 → ¬ sz ≤ 2 ∧ sz ≤ 3) ∧ (n = 4 → ¬ sz ≤ 3) := by
+  unfold decodeRune at h
+  simp only [hc, if_false] at h
+  cases hl : leadInfo c with
+  | none => simp [hl] at h
+  | some t =>
+    obtain ⟨sz, lo, hi⟩ := t
+    simp only [hl] at h
+    split at h
+    · simp at h
+    · cases rest with
+      | nil => simp at h
+      | cons b1 rest2 =>
+        simp only at h
+        split at h
+        · simp at h
+        · rename_i hb
+          have hb' : lo ≤ b1 ∧ b1 ≤ hi := by
+            simp only [Bool.or_eq_true, decide_eq_true_eq, not_or, UInt8.not_lt] at hb
+            exact hb
+          refine ⟨sz, lo, hi, b1, rest2, rfl, rfl, hb'.1, hb'.2, ?_⟩
+          split at h
+          · rename_i h2
+            simp only [Prod.mk.injEq, true_and] at h
+            exact ⟨fun _ => h2, fun h' => by omega, fun h' => by omega⟩
+          · rename_i h2
+            cases rest2 with
+            | nil => simp at h
+            | cons b2 rest3 =>
+              simp only at h
+              split at h
+              · simp at h
+              · split at h
+                · rename_i h3
+                  simp only [Prod.mk.injEq, true_and] at h
+                  exact ⟨fun h' => by omega, fun _ => ⟨h2, h3⟩, fun h' => by omega⟩
+                · rename_i h3
+                  cases rest3 with
+                  | nil => simp at h
+                  | cons b3 rest4 =>
+                    simp only at h
+                    split at h
+                    · simp at h
+                    · simp only [Prod.mk.injEq, true_and] at h
+                      exact ⟨fun h' => by omega, fun h' => by omega, fun _ => h3⟩
+
+
+theorem leadFact_of (c : Byte) : leadFact c.toNat = true := leadFact_all ⟨c.toNat, c.toNat_lt⟩
+
+/-- A verb decoded as `w` was spelled with the byte `w`. -/
+theorem decodeVerb_w {r : List Byte} {v : Nat} {r' : List Byte} (h : decodeVerb r = some (v, r')) (hv : v = 119) :
+    ∃ t, r = 0x77 :: t := by
+  unfold decodeVerb at h
+  cases r with
+  | nil => simp at h
+  | cons c rest =>
+    simp only at h
+    by_cases hc : c < 0x80
+    · simp only [hc, if_true, Option.some.injEq, Prod.mk.injEq] at h
+      refine ⟨rest, ?_⟩
+      have : c.toNat = (0x77 : UInt8).toNat := by rw [h.1, hv]; rfl
+      rw [UInt8.toNat.inj this]
+    · exfalso
+      simp only [hc, if_false] at h
+      have lf := leadFact_of c
+      unfold leadFact at lf
+      simp only [UInt8.ofNat_toNat] at lf
+      split at h
+      · -- two bytes
+        rename_i hd
+        obtain ⟨sz, lo, hi, b1, r1, hl, hr, h1, h2, k2, _, _⟩ := decodeRune_ok hc hd
+        subst hr
+        simp only [Option.some.injEq, Prod.mk.injEq] at h
+        rw [hl] at lf
+        have hsz := k2 rfl
+        have : 2 ≤ c.toNat &&& 0x1F := by
+          simp only [Bool.or_eq_true, Bool.and_eq_true, beq_iff_eq, decide_eq_true_eq] at lf
+          rcases lf with (⟨_, h⟩ | ⟨h, _⟩) | ⟨h, _⟩ <;> first | exact h | omega
+        have hge : (c.toNat &&& 0x1F) <<< 6 ≤ v := by rw [← h.1]; exact Nat.left_le_or
+        rw [Nat.shiftLeft_eq] at hge
+        omega
+      · -- three bytes
+        rename_i hd
+        obtain ⟨sz, lo, hi, b1, r1, hl, hr, h1, h2, _, k3, _⟩ := decodeRune_ok hc hd
+        subst hr
+        cases r1 with
+        | nil => simp at h
+        | cons b2 r2 =>
+          simp only [Option.some.injEq, Prod.mk.injEq] at h
+          rw [hl] at lf
+          have hsz := k3 rfl
+          simp only [Bool.or_eq_true, Bool.and_eq_true, beq_iff_eq, decide_eq_true_eq] at lf
+          have hA : (c.toNat &&& 0x0F) <<< 12 ≤ v := by
+            rw [← h.1]; exact Nat.le_trans Nat.left_le_or Nat.left_le_or
+          have hB : (b1.toNat &&& 0x3F) <<< 6 ≤ v := by
+            rw [← h.1]; exact Nat.le_trans Nat.right_le_or Nat.left_le_or
+          rw [Nat.shiftLeft_eq] at hA hB
+          rcases lf with (⟨h', _⟩ | ⟨_, h' | ⟨hlo, hhi⟩⟩) | ⟨h', _⟩
+          · omega
+          · omega
+          · subst hlo hhi
+            have := lo_and b1.toNat h1 h2
+            omega
+          · omega
+      · -- four bytes
+        rename_i hd
+        obtain ⟨sz, lo, hi, b1, r1, hl, hr, h1, h2, _, _, k4⟩ := decodeRune_ok hc hd
+        subst hr
+        cases r1 with
+        | nil => simp at h
+        | cons b2 r2 =>
+          cases r2 with
+          | nil => simp at h
+          | cons b3 r3 =>
+            simp only [Option.some.injEq, Prod.mk.injEq] at h
+            rw [hl] at lf
+            have hsz := k4 rfl
+            simp only [Bool.or_eq_true, Bool.and_eq_true, beq_iff_eq, decide_eq_true_eq] at lf
+            have hA : (c.toNat &&& 0x07) <<< 18 ≤ v := by
+              rw [← h.1]; exact Nat.le_trans (Nat.le_trans Nat.left_le_or Nat.left_le_or) Nat.left_le_or
+            have hB : (b1.toNat &&& 0x3F) <<< 12 ≤ v := by
+              rw [← h.1]; exact Nat.le_trans (Nat.le_trans Nat.right_le_or Nat.left_le_or) Nat.left_le_or
+            rw [Nat.shiftLeft_eq] at hA hB
+            rcases lf with (⟨h', _⟩ | ⟨h', _⟩) | ⟨_, h' | ⟨hlo, hhi⟩⟩
+            · omega
+            · omega
+            · omega
+            · subst hlo hhi
+              have := lo_and4 b1.toNat h1 h2
+              omega
+      · simp only [Option.some.injEq, Prod.mk.injEq] at h
+        omega
+
+/-- **A format that does not contain the byte `w` has no `%w` directive.** -/
+theorem noW_of_not_mem (f : List Byte) (h : (0x77 : Byte) ∉ f) : NoW f := by
+  intro r v r' hr hd hv
+  obtain ⟨t, rfl⟩ := decodeVerb_w hd hv
+  exact h (hr.subset (List.mem_cons_self ..))
+
+end Redact.EqW
